@@ -506,6 +506,10 @@ pub fn check(g: &[u8], ctx: &Ctx) -> Result<Info, Failure> {
             info.class("kind:pow");
             check_pow(&mut s, &mut info, &mut key, ctx)?
         }
+        4 | 5 if ctx.fuzz => {
+            // tens of milliseconds per case: left to the proptest tiers
+            info.class("kind:skipped-in-fuzz");
+        }
         4 => {
             info.class("kind:finalexp");
             check_finalexp(&mut s, &mut info, &mut key, ctx)?
